@@ -135,6 +135,7 @@ def run_call(fun, entry, method, order, gen, x):
                 val, info = obj(np.array(x, dtype=float))
         res['val'] = val
         res['est'] = info.error_estimate
+        res['info'] = info
     except Exception as e:        # an exception of the library is an observation, not a harness crash
         res['status'] = 'raised-' + type(e).__name__
         res['exc'] = '%s: %s' % (type(e).__name__, str(e)[:300])
